@@ -188,7 +188,21 @@ type wireBackend struct {
 	objs  []*wireObj
 }
 
+// wireClamp keeps a logged number within +-10^9 (TLC integers are 32 bit; the specification
+// evaluates numerals of at most 9 digits and treats everything else as "beyond").
+func wireClamp(n int64) int {
+	const lim = 1000000000
+	if n > lim {
+		return lim
+	}
+	if n < -lim {
+		return -lim
+	}
+	return int(n)
+}
+
 func (b *wireBackend) rec(c wireCall) {
+	c.A, c.B = wireClamp(int64(c.A)), wireClamp(int64(c.B))
 	for _, p := range []*wireCodes{&c.Repo, &c.Dig, &c.Tag, &c.From, &c.ID, &c.Mt, &c.Sha, &c.Last} {
 		if *p == nil {
 			*p = wireCodes{}
@@ -597,6 +611,25 @@ func wireRun(c wireCase) (ev any) {
 		}
 	}
 	out["linkp"] = linkp
+	// the Content-Range header taken apart: bytes start-end/total (numbers clamped)
+	crp := wireEv{"ok": false, "start": 0, "end": 0, "total": 0}
+	if cv := res.Header.Get("Content-Range"); cv != "" {
+		if rest, ok := strings.CutPrefix(cv, "bytes "); ok {
+			if se, total, ok := strings.Cut(rest, "/"); ok {
+				// the end may be negative ("0--1/0" is how an empty blob is described)
+				if i := strings.Index(se[min(1, len(se)):], "-"); i >= 0 {
+					s0, e0 := se[:i+1], se[i+2:]
+					a, err1 := strconv.ParseInt(s0, 10, 64)
+					b, err2 := strconv.ParseInt(e0, 10, 64)
+					t, err3 := strconv.ParseInt(total, 10, 64)
+					if err1 == nil && err2 == nil && err3 == nil {
+						crp = wireEv{"ok": true, "start": wireClamp(a), "end": wireClamp(b), "total": wireClamp(t)}
+					}
+				}
+			}
+		}
+	}
+	out["crp"] = crp
 	calls := backend.calls
 	if calls == nil {
 		calls = []wireCall{}
@@ -837,8 +870,16 @@ func wireMutate(r *rand.Rand, s string) string {
 	return string(b)
 }
 
+// numerals at the integer boundaries: 2^31-1, 2^31, 2^32, 2^63-1, 2^63-2, 2^63, 2^64, 20 digits
+func wireBoundary(r *rand.Rand) string {
+	return wireOne(r, "2147483647", "2147483648", "4294967296", "9223372036854775807", "9223372036854775806", "9223372036854775808",
+		"18446744073709551615", "18446744073709551616", "99999999999999999999", "999999999", "1000000000")
+}
+
 func wireNumber(r *rand.Rand) string {
 	switch r.Intn(10) {
+	case 1:
+		return wireOne(r, wireBoundary(r), "-"+wireBoundary(r))
 	case 0:
 		return wireOne(r, "", "x", "-1", "+2", "1e3", "0x10", " 1", "1 ", "12345678901", "99999999999999999999", "-", "+", "007", "1_0")
 	default:
@@ -1018,6 +1059,8 @@ func wireRandom(r *rand.Rand) wireCase {
 		a, b := r.Intn(8), r.Intn(8)
 		switch r.Intn(10) {
 		case 0:
+			return wireOne(r, "bytes=0-"+wireBoundary(r), "bytes="+wireBoundary(r)+"-", "bytes="+strconv.Itoa(r.Intn(4))+"-"+wireBoundary(r), "bytes="+wireBoundary(r)+"-"+wireBoundary(r))
+		case 2:
 			return wireOne(r, "bytes=", "bytes=-", "bytes=a-b", "bytes=0-1,3-4", "bytes=-3", "bytes= 0 - 1 ", "items=0-1", "bytes=5-2", "bytes=99999999999-", "bytes=1-99999999999", "bytes=+1-2", "bytes=0-0,")
 		case 1:
 			return fmt.Sprintf("bytes=%d-", a)
@@ -1034,7 +1077,7 @@ func wireRandom(r *rand.Rand) wireCase {
 		case 0:
 			c.Rq.H.Crange = wireOf(wireOne(r, "abc", "1-x", "-1-2", "5-2", "+1-3", "1", "-", "0-0x", "3--1", "99999999999-99999999999", "bytes 0-1/2", " 0-1"))
 		case 1:
-			c.Rq.H.Crange = wireOf("0-0")
+			c.Rq.H.Crange = wireOf(wireOne(r, "0-0", "0-0", "0-"+wireBoundary(r), wireBoundary(r)+"-"+wireBoundary(r)))
 		default:
 			c.Rq.H.Crange = wireOf(fmt.Sprintf("%d-%d", a, a+l-1))
 		}
